@@ -1286,3 +1286,17 @@ Definition serve : M unit :=
   | MethodNotAllowed => write_resp (RespStatus 405)
   end.
 End H2.
+
+(* ---- the router as mounted ------------------------------------------------------------------
+   With [c_wrap_remember] the module routes sit behind remember.Middleware as well (a global
+   middleware chain LoadClientState -> remember -> mux): a request without a session identity
+   that carries a remember cookie is logged in (half-auth, overlaid view) before the route's own
+   handler runs.  The application routes (RApp) carry their own stack and are not wrapped twice. *)
+Definition serve_top (E : env) : M unit :=
+  match q_route (e_req E) with
+  | RApp _ _ _ _ _ _ _ => serve E
+  | _ =>
+      if c_wrap_remember (e_cfg E) then
+        remember_mw E ;;; s2 <- remembered_view (e_sess E) ;; serve (with_sess E s2)
+      else serve E
+  end.
